@@ -1,6 +1,6 @@
 (* C05 -- The partition log recovers from a crash at any instant. *)
 From LB Require Import Base.Prelude Log.Model Log.Retention Log.Compact Codec.Message Log.Proofs Log.Disk Log.DiskBase Log.DiskProofs
-  Log.DiskBlocks Log.DiskTrunc Log.DiskClean Log.DiskCleanOp Log.DiskSafety Log.DiskTear Log.DiskTorn Log.DiskRefute.
+  Log.DiskBlocks Log.DiskTrunc Log.DiskClean Log.DiskCleanOp Log.DiskSafety Log.DiskTear Log.DiskTorn Log.DiskRecover Log.DiskRecoverProofs Log.DiskRefute.
 Open Scope Z_scope.
 
 (* The crash model (Log.Disk): the directory of a partition (segment logs and indexes, the
@@ -159,3 +159,40 @@ Theorem C05_pinned_torn_write_refuted :
   end = None.
 Proof. exact torn_no_rebuild_stuck. Qed.
 Print Assumptions C05_pinned_torn_write_refuted.
+
+(* ---- a crash INSIDE commitlog.New (Log.DiskRecover) ----
+   commitlog.New is itself a sequence of file-system effects (`recover_effs`: stray indexes removed,
+   missing indexes created, indexes that do not end where their log ends removed, created again and
+   written entry by entry, segment 0 created in an empty directory, the epoch checkpoint trimmed
+   twice). After ANY prefix of them the directory is again a crash image with the same records and
+   the same HW checkpoint ... *)
+Theorem C05_crash_inside_recovery : forall H d, Mid H d -> forall j,
+  let d' := run_effs d (firstn j (recover_effs d)) in
+  Mid H d' /\ content d' = content d /\ d_hw d' = d_hw d.
+Proof. exact recover_prefix. Qed.
+Print Assumptions C05_crash_inside_recovery.
+
+(* ... so an operation cut short after any n effects, followed by any number of recoveries cut short
+   after j1, j2, ... effects, followed by a recovery that completes, gives a good log with the same
+   guarantees as a single crash. *)
+Theorem C05_recoveries_cut_short : forall key_of p, 0 < p_maxb p -> forall s o n js, Good s -> op_ok s o ->
+  exists s', crash_rec key_of p s o n js = Some s' /\
+    Good s' /\ s_hw s' <= s_hw s /\
+    (forall x, In x (content (s_disk s')) -> In x (content (s_disk s)) \/ In x (incoming s o)) /\
+    (forall x, In x (content (s_disk s)) -> survives key_of p s o x -> In x (content (s_disk s'))).
+Proof. exact crash_rec_safe. Qed.
+Print Assumptions C05_recoveries_cut_short.
+
+Theorem C05_recovery_crash_example :
+  match init key_of fixed P1000 with
+  | Some s0 => match exec key_of fixed P1000 s0 (DAppend [msg1 1]) with
+               | Some s1 => (length (recover_effs (run_effs (s_disk s1) (firstn 3 (match script key_of fixed P1000 s1 (DAppend [msg1 1; msg1 2]) with Some es => es | None => [] end)))),
+                             offsets_of (crash_rec key_of P1000 s1 (DAppend [msg1 1; msg1 2]) 3 [1; 5]%nat),
+                             offsets_of (match crash_rec key_of P1000 s1 (DAppend [msg1 1; msg1 2]) 3 [1; 5]%nat with
+                                         | Some s2 => exec key_of fixed P1000 s2 (DAppend [msg1 2]) | None => None end))
+               | None => (O, [], [])
+               end
+  | None => (O, [], [])
+  end = (11%nat, [0; 1; 2], [0; 1; 2; 3]).
+Proof. exact recovery_crashes_fine. Qed.
+Print Assumptions C05_recovery_crash_example.
